@@ -143,6 +143,10 @@ def run_case(edges, res, margin, obs, radius, noise):
                 mapOnNetwork(TrackCollection([mk_decoy(), tr]), net, gps_noise=noise, search_radius=radius, verbose=False)
             else:
                 mapOnNetwork(tr, net, gps_noise=noise, search_radius=radius, verbose=False)
+                if (len(obs) + len(edges)) % 4 == 0:
+                    # history: the same track object is matched a second time (its hmm_* features exist already)
+                    mapOnNetwork(tr, net, gps_noise=noise, search_radius=radius, verbose=False)
+                    e["cfg"]["entry"] = "track, matched twice"
             inf = [tr["hmm_inference", k] for k in range(tr.size())]
         e["states"] = [abstract_state(s, edges) for s in inf]
         # the candidate lists the decoder chose from (module global of tracklib.algo.mapping)
